@@ -22,7 +22,9 @@ NAME_POOL = ['C', 'Y', 'H_h', 'x1', 'X_if', 'is_open', 'Pin', 'not_X', 'origin',
              'min', 'xlog', 'log10', 'alpha_1', 'e', 'in_', 'T', 'G', 'YD', 'a', 'b', 'k9', 'N__d', 'If', 'Else',
              'forx', 'andy', 'D_or', 'abs', 'lambda_', 'Z', 'W', 'V', 'nonlocal_x', 'x_', 'expX', 'logs', 'maxim',
              # Python *soft* keywords are ordinary identifiers, hence ordinary variable names
-             'type', 'match', 'case']
+             'type', 'match', 'case',
+             # names that read like special values or missing-cell markers
+             'nan', 'inf', 'NA']
 UNDERSCORE_POOL = ['_u', '_X', '__v']
 
 
